@@ -127,7 +127,9 @@ int run_param_set(const Params &P, mc::Ctx &ctx, bool expert_only) {
     const PointCloud &src = g.is_mesh ? *mesh : *cloud;
     for (int method = 0; method < 2; ++method)
       for (int speed : {0, 5, 10})
-        for (int api = 0; api < (expert_only ? 1 : 2); ++api) {
+        // api 0: ExpertEncoder; 1: draco::Encoder; 2: ExpertEncoder with built-in attribute compression switched off (values stored
+        // raw with a width byte: the decoded value must not depend on that option either)
+        for (int api : expert_only ? std::vector<int>{0, 2} : std::vector<int>{0, 1, 2}) {
           EncCfg c;
           c.method = method;
           if (g.is_mesh && method == 1) c.eb_method = speed == 0 ? MESH_EDGEBREAKER_VALENCE_ENCODING : MESH_EDGEBREAKER_STANDARD_ENCODING;
@@ -135,6 +137,7 @@ int run_param_set(const Params &P, mc::Ctx &ctx, bool expert_only) {
           c.qbits = {P.bits};
           c.explicit_q[0] = {origin, P.range};
           c.use_plain_encoder = api == 1;
+          c.builtin_entropy = api != 2;
           EncResult enc;
           {
             const uint64_t refused_before = mc::alloc_env().refused;
